@@ -10,18 +10,18 @@ Require Import Base M_ExitStack.
 Definition has_receiver (k : regkind) : bool :=
   match k with
   | KEnter | KPushMgr | KPushMeth | KEnterA | KPushAMgr | KPushAMeth => true
-  | KPushFn | KCallback | KPushAFn | KACallback => false
+  | KPushFn _ | KCallback | KPushAFn _ | KACallback => false
   end.
 
 (* "its sync/async kind" *)
 Definition spec_async (k : regkind) : bool :=
-  match k with KEnterA | KPushAMgr | KPushAFn | KPushAMeth | KACallback => true | _ => false end.
+  match k with KEnterA | KPushAMgr | KPushAFn _ | KPushAMeth | KACallback => true | _ => false end.
 
 (* "in its description the registration method that was used" *)
 Definition spec_meth (k : regkind) : meth :=
   match k with
-  | KEnter => MEnter | KPushMgr | KPushFn | KPushMeth => MPush | KCallback => MCallback
-  | KEnterA => MEnterA | KPushAMgr | KPushAFn | KPushAMeth => MPushA | KACallback => MACallback
+  | KEnter => MEnter | KPushMgr | KPushFn _ | KPushMeth => MPush | KCallback => MCallback
+  | KEnterA => MEnterA | KPushAMgr | KPushAFn _ | KPushAMeth => MPushA | KACallback => MACallback
   end.
 
 (* only enter_async_context is awaited *)
@@ -52,11 +52,21 @@ Definition f10 (k : regkind) (exitname : bool) : bool :=
   | _ => false
   end.
 
+(* fault containment: unfolding an exit stack needs the repr of every registered manager / bound-method
+   receiver; if that fails (or the unfolding of such a child fails) the unfolding of the stack fails.
+   Functions, callbacks and generator-based managers never make it fail. *)
+Fixpoint spec_raises (m : mgr) : bool :=
+  match m with
+  | MStack cbs => existsb (fun c => match c with Cb k _ _ _ _ _ m' =>
+                    has_receiver k && (is_faulty m' || spec_raises m') end) cbs
+  | _ => false
+  end.
+
 (* the expected context tree, by structural recursion on the manager tree (no fuel) *)
 Fixpoint spec_mgr (ex : bool) (root : rootk) (path : list nat) (i : kinfo) (oid : nat) (async : bool)
          (m : mgr) {struct m} : cout :=
   match m with
-  | MPlain => COut oid async ex None [] i
+  | MPlain | MFaulty => COut oid async ex None [] i
   | MGen f => COut oid async ex (if ex then None else Some (spec_series f)) [] i
   | MStack cbs =>
       COut oid async ex None
@@ -75,19 +85,24 @@ Fixpoint spec_mgr (ex : bool) (root : rootk) (path : list nat) (i : kinfo) (oid 
 with spec_series (f : frm) {struct f} : list fout :=
   match f with
   | Frm code ws t =>
+      (* a with-block whose unfolding fails is left bare; the other with-blocks of the frame are
+         unfolded as if nothing had happened *)
       let cs := map (fun w => match w with Wth oid async named m =>
-                       spec_mgr false (if named then RName else RUnderscore) [] KTop oid async m end) ws in
+                       if spec_raises m then COut oid async false None [] KTop
+                       else spec_mgr false (if named then RName else RUnderscore) [] KTop oid async m end) ws in
       match t with
       | TStop => [FOut code cs]
       | TDeleg g => FOut code cs :: spec_series g
       | TExit (Wth oid async named m) =>
-          FOut code (cs ++ [spec_mgr true (if named then RName else RUnderscore) [] KTop oid async m])
+          FOut code (cs ++ [if spec_raises m then COut oid async true None [] KTop
+                            else spec_mgr true (if named then RName else RUnderscore) [] KTop oid async m])
           :: match m with MGen g => spec_series g | _ => [] end
       | TExitS (Wth oid async named m) cur =>
           (* an exit stack in the middle of exiting: the stack is exiting, the managers still
              registered are NOT (spec_mgr unfolds children with ex = false); the frames of the
              manager being exited follow in the main series *)
-          FOut code (cs ++ [spec_mgr true (if named then RName else RUnderscore) [] KTop oid async m])
+          FOut code (cs ++ [if spec_raises m then COut oid async true None [] KTop
+                            else spec_mgr true (if named then RName else RUnderscore) [] KTop oid async m])
           :: match cur with MGen g => spec_series g | _ => [] end
       end
   end.
@@ -95,7 +110,7 @@ with spec_series (f : frm) {struct f} : list fout :=
 (* nesting depth (the fuel the model needs) *)
 Fixpoint depth_mgr (m : mgr) : nat :=
   match m with
-  | MPlain => 1
+  | MPlain | MFaulty => 1
   | MGen f => S (depth_frm f)
   | MStack cbs => S (list_max (map (fun c => match c with Cb _ _ _ _ _ _ m' => depth_mgr m' end) cbs))
   end
@@ -115,7 +130,7 @@ with depth_frm (f : frm) : nat :=
    ([modelled]) and no registration is one of the indistinguishable ones ([nof10]) *)
 Fixpoint modelled_mgr (m : mgr) : bool :=
   match m with
-  | MPlain => true
+  | MPlain | MFaulty => true
   | MGen f => modelled_frm f
   | MStack cbs => forallb (fun c => match c with Cb k falsy x a _ _ m' =>
                      avec_eqb a (cl_attrs k falsy x) && modelled_mgr m' end) cbs
@@ -130,7 +145,7 @@ with modelled_frm (f : frm) : bool :=
 
 Fixpoint nof10_mgr (m : mgr) : bool :=
   match m with
-  | MPlain => true
+  | MPlain | MFaulty => true
   | MGen f => nof10_frm f
   | MStack cbs => forallb (fun c => match c with Cb k _ x _ _ _ m' => negb (f10 k x) && nof10_mgr m' end) cbs
   end
@@ -158,7 +173,7 @@ Proof. destruct a as [? ? ? ? ? ? ? ? ? r]; unfold avec_eqb; simpl. rewrite !eqb
 (* for every registration form that contextlib keeps distinguishable, the classifier applied to the
    stored attribute vector yields the form's own description (all forms, falsy managers included) *)
 Lemma classify_modelled k falsy x : f10 k x = false -> classify (cl_attrs k falsy x) = spec_cls k.
-Proof. destruct k, falsy, x; simpl; intros H; try discriminate H; reflexivity. Qed.
+Proof. destruct k as [| |lk| | | | |lk| |], falsy, x; try destruct lk; simpl; intros H; try discriminate H; reflexivity. Qed.
 
 Lemma sync_modelled k falsy x : a_sync (cl_attrs k falsy x) = negb (spec_async k).
 Proof. destruct k; reflexivity. Qed.
@@ -206,6 +221,37 @@ Proof.
   rewrite Forall_forall in F. apply F, H.
 Qed.
 
+Lemma existsb_ext_in {A} (f g : A -> bool) l : (forall x, In x l -> f x = g x) -> existsb f l = existsb g l.
+Proof.
+  induction l as [|x l IH]; intros H; simpl; [reflexivity|].
+  rewrite H by (left; reflexivity). f_equal. apply IH. intros; apply H; right; assumption.
+Qed.
+
+Lemma needs_repr_receiver k : has_receiver k = true -> needs_repr (spec_cls k) = true.
+Proof. destruct k; simpl; intros H; try discriminate H; reflexivity. Qed.
+
+(* the model's "does fill_context raise" (by attribute vector, fuelled) is the specification's *)
+Lemma raises_correct : forall fuel m,
+  depth_mgr m <= fuel -> modelled_mgr m = true -> nof10_mgr m = true -> raises fuel m = spec_raises m.
+Proof.
+  induction fuel as [|n IH]; intros m Hd Hm Hn.
+  - destruct m; simpl in Hd; lia.
+  - destruct m as [|f|cbs|]; try reflexivity.
+    simpl in Hd, Hm, Hn. simpl. apply existsb_ext_in. intros c Hin.
+    rewrite forallb_forall in Hm, Hn. specialize (Hm c Hin). specialize (Hn c Hin).
+    assert (Hdc : match c with Cb _ _ _ _ _ _ m' => depth_mgr m' end <= n).
+    { apply le_S_n in Hd. eapply Nat.le_trans; [|exact Hd]. apply list_max_in.
+      apply in_map_iff. exists c. split; [reflexivity|assumption]. }
+    destruct c as [k falsy x av oself ocb m'].
+    apply andb_true_iff in Hm as [Hav Hm']. apply andb_true_iff in Hn as [Hf Hn'].
+    apply avec_eqb_eq in Hav. subst av. apply negb_true_iff in Hf.
+    rewrite (classify_modelled k falsy x Hf).
+    pose proof (needs_repr_receiver k) as Hr.
+    unfold spec_cls in *; simpl in *. unfold spec_sel in *. destruct (has_receiver k); simpl.
+    + rewrite Hr by reflexivity. rewrite andb_true_r. rewrite IH by assumption. reflexivity.
+    + reflexivity.
+Qed.
+
 Lemma unfold_correct : forall fuel,
   (forall m, depth_mgr m <= fuel -> modelled_mgr m = true -> nof10_mgr m = true ->
      forall ex r p i oid a nm, fill fuel ex r p i (Wth oid a nm m) = spec_mgr ex r p i oid a m) /\
@@ -215,7 +261,7 @@ Proof.
   induction fuel as [|n [IHm IHf]].
   - split; intros x H; destruct x; simpl in H; lia.
   - split.
-    + intros m Hd Hm Hn ex r p i oid a nm. destruct m as [|f|cbs].
+    + intros m Hd Hm Hn ex r p i oid a nm. destruct m as [|f|cbs|].
       * reflexivity.
       * simpl in *. destruct ex; [reflexivity|]. rewrite IHf by (assumption || lia). reflexivity.
       * simpl in Hd, Hm, Hn. simpl. f_equal. apply mapi_ext_in. intros idx c Hin.
@@ -230,19 +276,29 @@ Proof.
         unfold spec_cls, spec_sel; simpl. destruct (has_receiver k).
         -- apply IHm; assumption.
         -- destruct n as [|n']; [destruct m'; simpl in Hdc; lia|]. reflexivity.
+      * reflexivity.
     + intros f Hd Hm Hn. destruct f as [code ws t]. simpl in Hd, Hm, Hn.
       apply andb_true_iff in Hm as [Hmw Hmt]. apply andb_true_iff in Hn as [Hnw Hnt].
-      assert (Hws : map (fun w => match w with Wth _ _ named _ =>
-                      fill n false (if named then RName else RUnderscore) [] KTop w end) ws
+      assert (Htop : forall (ex : bool) (oid : nat) (a nm : bool) (m : mgr), depth_mgr m <= n -> modelled_mgr m = true -> nof10_mgr m = true ->
+                (if raises n m then COut oid a ex None [] KTop
+                 else fill n ex (if nm then RName else RUnderscore) [] KTop (Wth oid a nm m))
+              = (if spec_raises m then COut oid a ex None [] KTop
+                 else spec_mgr ex (if nm then RName else RUnderscore) [] KTop oid a m)).
+      { intros ex oid a nm m H1 H2 H3. rewrite raises_correct by assumption.
+        destruct (spec_raises m); [reflexivity|]. apply IHm; assumption. }
+      assert (Hws : map (fun w => match w with Wth oid async named m =>
+                      if raises n m then COut oid async false None [] KTop
+                      else fill n false (if named then RName else RUnderscore) [] KTop w end) ws
                   = map (fun w => match w with Wth oid async named m =>
-                      spec_mgr false (if named then RName else RUnderscore) [] KTop oid async m end) ws).
+                      if spec_raises m then COut oid async false None [] KTop
+                      else spec_mgr false (if named then RName else RUnderscore) [] KTop oid async m end) ws).
       { apply map_ext_in. intros w Hin. rewrite forallb_forall in Hmw, Hnw.
         specialize (Hmw w Hin). specialize (Hnw w Hin).
         assert (Hdw : match w with Wth _ _ _ m => depth_mgr m end <= n).
         { apply le_S_n in Hd. eapply Nat.le_trans; [|exact Hd].
           eapply Nat.le_trans; [|apply Nat.le_max_l]. apply list_max_in.
           apply in_map_iff. exists w. split; [reflexivity|assumption]. }
-        destruct w as [oid a nm m]. apply IHm; assumption. }
+        destruct w as [oid a nm m]. apply Htop; assumption. }
       apply le_S_n in Hd.
       destruct t as [|g|w|w cur]; simpl.
       * rewrite Hws. reflexivity.
@@ -250,13 +306,13 @@ Proof.
         eapply Nat.le_trans; [|exact Hd]. apply Nat.le_max_r.
       * destruct w as [oid a nm m]. rewrite Hws.
         assert (Hdm : depth_mgr m <= n) by (eapply Nat.le_trans; [|exact Hd]; apply Nat.le_max_r).
-        rewrite (IHm m Hdm Hmt Hnt). destruct m as [|g|cbs]; try reflexivity.
+        rewrite (Htop true oid a nm m Hdm Hmt Hnt). destruct m as [|g|cbs|]; try reflexivity.
         simpl in Hdm, Hmt, Hnt. rewrite IHf by (assumption || lia). reflexivity.
       * destruct w as [oid a nm m]. rewrite Hws.
         apply andb_true_iff in Hmt as [Hmt Hmc]. apply andb_true_iff in Hnt as [Hnt Hnc].
         assert (Hdm : depth_mgr m <= n) by lia.
         assert (Hdc : depth_mgr cur <= n) by lia.
-        rewrite (IHm m Hdm Hmt Hnt). destruct cur as [|g|cbs]; try reflexivity.
+        rewrite (Htop true oid a nm m Hdm Hmt Hnt). destruct cur as [|g|cbs|]; try reflexivity.
         simpl in Hdc, Hmc, Hnc. rewrite IHf by (assumption || lia). reflexivity.
 Qed.
 
@@ -388,7 +444,7 @@ Proof.
   induction fuel as [|n [IHm IHf]].
   - split; intros x H; destruct x; simpl in H; lia.
   - split.
-    + intros m Hd ex r p i oid a nm. destruct m as [|f|cbs].
+    + intros m Hd ex r p i oid a nm. destruct m as [|f|cbs|].
       * reflexivity.
       * simpl in *. destruct ex; [reflexivity|]. simpl. rewrite IHf by lia. reflexivity.
       * simpl in Hd. simpl. apply forallb_mapi. intros idx c Hin.
@@ -399,27 +455,33 @@ Proof.
         destruct (c_sel (classify av)).
         -- apply IHm; assumption.
         -- apply IHm. simpl. destruct m'; simpl in Hdc; lia.
+      * reflexivity.
     + intros f Hd. destruct f as [code ws t]. simpl in Hd. apply le_S_n in Hd.
-      assert (Hws : forallb fuel_free_c (map (fun w => match w with Wth _ _ named _ =>
-                      fill n false (if named then RName else RUnderscore) [] KTop w end) ws) = true).
+      assert (Htop : forall (ex : bool) (oid : nat) (a nm : bool) (m : mgr), depth_mgr m <= n ->
+                fuel_free_c (if raises n m then COut oid a ex None [] KTop
+                             else fill n ex (if nm then RName else RUnderscore) [] KTop (Wth oid a nm m)) = true).
+      { intros ex oid a nm m H1. destruct (raises n m); [reflexivity|]. apply IHm; assumption. }
+      assert (Hws : forallb fuel_free_c (map (fun w => match w with Wth oid async named m =>
+                      if raises n m then COut oid async false None [] KTop
+                      else fill n false (if named then RName else RUnderscore) [] KTop w end) ws) = true).
       { apply forallb_map_in. intros w Hin.
         assert (Hdw : match w with Wth _ _ _ m => depth_mgr m end <= n).
         { eapply Nat.le_trans; [|exact Hd].
           eapply Nat.le_trans; [|apply Nat.le_max_l]. apply list_max_in.
           apply in_map_iff. exists w. split; [reflexivity|assumption]. }
-        destruct w as [oid a nm m]. apply IHm; assumption. }
+        destruct w as [oid a nm m]. apply Htop; assumption. }
       destruct t as [|g|w|w cur]; simpl.
       * rewrite Hws. reflexivity.
       * rewrite Hws. simpl. apply IHf. eapply Nat.le_trans; [|exact Hd]. apply Nat.le_max_r.
       * destruct w as [oid a nm m].
         assert (Hdm : depth_mgr m <= n) by (eapply Nat.le_trans; [|exact Hd]; apply Nat.le_max_r).
-        rewrite forallb_app, Hws. simpl. rewrite (IHm m Hdm). simpl.
-        destruct m as [|g|cbs]; try reflexivity. simpl in Hdm. apply IHf. lia.
+        rewrite forallb_app, Hws. simpl. rewrite (Htop true oid a nm m Hdm). simpl.
+        destruct m as [|g|cbs|]; try reflexivity. simpl in Hdm. apply IHf. lia.
       * destruct w as [oid a nm m].
         assert (Hdm : depth_mgr m <= n) by lia.
         assert (Hdc : depth_mgr cur <= n) by lia.
-        rewrite forallb_app, Hws. simpl. rewrite (IHm m Hdm). simpl.
-        destruct cur as [|g|cbs]; try reflexivity. simpl in Hdc. apply IHf. lia.
+        rewrite forallb_app, Hws. simpl. rewrite (Htop true oid a nm m Hdm). simpl.
+        destruct cur as [|g|cbs|]; try reflexivity. simpl in Hdc. apply IHf. lia.
 Qed.
 
 Lemma tree_fuel_suffices fuel f : depth_frm f <= fuel -> forallb fuel_free_f (series fuel f) = true.
@@ -436,7 +498,7 @@ Definition ex_stack : mgr :=
   MStack [Cb KEnter false false (cl_attrs KEnter false false) 30 31
              (MGen (Frm 11 [Wth 32 false false ex_inner_stack] (TDeleg (Frm 13 [] TStop))));
           Cb KEnterA true false (cl_attrs KEnterA true false) 33 34 MPlain;
-          Cb KPushAFn false false (cl_attrs KPushAFn false false) 0 35 MPlain;
+          Cb (KPushAFn LWraps) false false (cl_attrs (KPushAFn LWraps) false false) 0 35 MPlain;
           Cb KACallback false false (cl_attrs KACallback false false) 0 36 MPlain].
 Definition ex_tree : frm :=
   Frm 10 [Wth 40 true true ex_stack]
@@ -460,14 +522,17 @@ Proof. split; reflexivity. Qed.
    subtrees; only the registration hypotheses of children_exact). *)
 Lemma series_exits n code ws oid a nm m cur :
   series (S n) (Frm code ws (TExitS (Wth oid a nm m) cur))
-  = FOut code (map (fun w => match w with Wth _ _ named _ =>
-                      fill n false (if named then RName else RUnderscore) [] KTop w end) ws
-               ++ [fill n true (if nm then RName else RUnderscore) [] KTop (Wth oid a nm m)])
+  = FOut code (map (fun w => match w with Wth oid' a' named m' =>
+                      if raises n m' then COut oid' a' false None [] KTop
+                      else fill n false (if named then RName else RUnderscore) [] KTop w end) ws
+               ++ [if raises n m then COut oid a true None [] KTop
+                   else fill n true (if nm then RName else RUnderscore) [] KTop (Wth oid a nm m)])
     :: match cur with MGen g => series n g | _ => [] end.
 Proof. reflexivity. Qed.
 
 Lemma exiting_stack_children n cbs oid a nm code ws cur :
   seq_modelled cbs = true -> seq_nof10 cbs = true ->
+  raises (S (S n)) (MStack cbs) = false ->       (* the unfolding of the stack itself does not fail *)
   exists cs kids rest,
     series (S (S (S n))) (Frm code ws (TExitS (Wth oid a nm (MStack cbs)) cur))
       = FOut code (cs ++ [COut oid a true None kids KTop]) :: rest /\
@@ -478,10 +543,10 @@ Lemma exiting_stack_children n cbs oid a nm code ws cur :
       exists info,
         nth_error kids j = Some (COut oself (spec_async k) false (Some (series n g)) [] info).
 Proof.
-  intros Hm Hn.
+  intros Hm Hn Hrz.
   destruct (children_exact n cbs true (if nm then RName else RUnderscore) [] KTop oid a nm Hm Hn)
     as [kids [Hfill [Hlen _]]].
-  do 3 eexists. split; [rewrite series_exits, Hfill; reflexivity|]. split; [reflexivity|].
+  do 3 eexists. split; [rewrite series_exits, Hrz, Hfill; reflexivity|]. split; [reflexivity|].
   split; [exact Hlen|].
   intros j k falsy x av oself ocb g Hj Hr.
   simpl in Hfill. injection Hfill as Hk. subst kids.
@@ -523,3 +588,41 @@ Proof.
   unfold extract_seq. rewrite map_app. rewrite nth_error_app2 by (rewrite map_length; lia).
   rewrite map_length, Nat.sub_diag. reflexivity.
 Qed.
+
+(* ================================================================== contained faults *)
+(* Each with-block of a frame is unfolded on its own: whether other with-blocks of the same frame
+   fail to unfold (raises = true: they stay bare) has no influence on it. *)
+Lemma fault_contained n code ws :
+  exists cs, series (S n) (Frm code ws TStop) = [FOut code cs] /\ length cs = length ws /\
+    forall j oid a nm m, nth_error ws j = Some (Wth oid a nm m) ->
+      nth_error cs j = Some (if raises n m then COut oid a false None [] KTop
+                             else fill n false (if nm then RName else RUnderscore) [] KTop (Wth oid a nm m)).
+Proof.
+  eexists. split; [reflexivity|]. split; [apply map_length|].
+  intros j oid a nm m Hj. erewrite map_nth_error by exact Hj. reflexivity.
+Qed.
+
+(* a function handed to push / push_async_exit is described as push / push_async_exit whatever it
+   looks like (functools.wraps closure over args/kwds, named _exit_wrapper, ...), short of carrying
+   all three marks of contextlib's own closure *)
+Lemma lookalike_is_push lk :
+  c_meth (classify (cl_attrs (KPushFn lk) false false)) = MPush /\
+  c_meth (classify (cl_attrs (KPushAFn lk) false false)) = MPushA /\
+  c_arg (classify (cl_attrs (KPushFn lk) false false)) = AFuncname.
+Proof. destruct lk; repeat split. Qed.
+
+Definition ex_faulty_frame : frm :=
+  Frm 10 [Wth 40 false true (MStack [Cb KEnter false false (cl_attrs KEnter false false) 30 31 MFaulty]);
+          Wth 41 false true (MGen (Frm 11 [] TStop));
+          Wth 42 false true (MStack [Cb KCallback false false (cl_attrs KCallback false false) 0 32 MPlain])] TStop.
+Example ex_faulty_contained :
+  series 5 ex_faulty_frame =
+  [FOut 10 [COut 40 false false None [] KTop;
+            COut 41 false false (Some [FOut 11 []]) [] KTop;
+            COut 42 false false None
+              [COut 32 false false None [] (KChild SelCallback RName [] 0 false MCallback ACallArgs)] KTop]].
+Proof. reflexivity. Qed.
+
+Example ex_mid_exit_hyps :
+  match ex_stack with MStack cbs => raises 5 (MStack cbs) = false | _ => False end.
+Proof. reflexivity. Qed.
